@@ -54,6 +54,8 @@ def kinds(steps):
                     k = "rm-down-peer"
                 if s["p"] == "p1" and "rm-self" != k:
                     ks.add("rm-first-leader")
+        if k in ("cpin", "cunpin"):
+            k += ("-at-leader" if s["at"] == s["p"] == "p1" else "-at-follower" if s["at"] == s["p"] else "-redirect") + "-" + s["out"]
         if k == "join" and s["pins"]:
             k = "join-nonempty"
         if k in ("pin", "unpin") and s["at"] != "p1":
